@@ -131,6 +131,8 @@ class CallGraph:
         bad: List[str] = []
         seen: Set[FuncInfo] = set()
         todo = [target]
+        if not self.callers(target):
+            return (False, [target.key + " (no caller: an entry point of its own)"])
         while todo:
             cur = todo.pop()
             for fn, node, how in self.callers(cur):
